@@ -330,7 +330,17 @@ package bkl
 // ------------------------------------------------------------------------------------------------- repeat.go, evalcontext.go, document.go (shape contracts)
 
 //@ func repeatDoc(doc, ec) (docs, ecs, err)
+//@   property C12
+//@   propagates all   [C12] [C08]
 //@   ensures (=> (not (isErr err)) (= (rllen docs) (rllen ecs)))
+//@   ensures (=> (and (not ((_ is VMap) (old (Document.Data doc)))) (not ((_ is VList) (old (Document.Data doc)))))   [C12] [C06]
+//@              (and (not (isErr err)) (= docs (RCons doc RNil)) (= ecs (RCons ec RNil)) (= (heap Document.Data) (old (heap Document.Data)))))
+//@   ensures (=> (and ((_ is VMap) (old (Document.Data doc))) (= (select (mc (old (Document.Data doc))) "$repeat") VAbsent))   [C12] [C06]
+//@              (and (not (isErr err)) (= docs (RCons doc RNil)) (= ecs (RCons ec RNil)) (= (heap Document.Data) (old (heap Document.Data)))))
+//@   at call repeatDocMap#1
+//@     assert (and (= doc@arg doc) (= ec@arg ec) (= data@arg (Document.Data doc)))                           [C12]
+//@   at call repeatDocList#1
+//@     assert (and (= doc@arg doc) (= ec@arg ec) (= data@arg (Document.Data doc)))                           [C12]
 //
 //@ func repeatDocMap(doc, ec, data) (docs, ecs, err)
 //@   ensures (=> (not (isErr err)) (= (rllen docs) (rllen ecs)))
@@ -342,6 +352,11 @@ package bkl
 //
 //@ func repeatDocList(doc, ec, data) (docs, ecs, err)
 //@   ensures (=> (not (isErr err)) (= (rllen docs) (rllen ecs)))
+//@   ensures (=> (plmvE (ls data) "$repeat" VNil) (isErr err))                                            [C12]
+//@   ensures (=> (and (not (plmvE (ls data) "$repeat" VNil)) (= (plmvV (ls data) "$repeat" VNil) VNil))   [C12] [C06]
+//@              (and (not (isErr err)) (= docs (RCons doc RNil)) (= ecs (RCons ec RNil)) (= (heap Document.Data) (old (heap Document.Data)))))
+//@   at call repeatDocGen#1
+//@     assert (and (= v@arg (plmvV (ls data) "$repeat" VNil)) (= (Document.Data doc) (VList (plmvR (ls data) "$repeat"))))   [C12]
 //
 //@ func repeatDocGen(doc, ec, v) (docs, ecs, err)
 //@   ensures (=> (not (isErr err)) (= (rllen docs) (rllen ecs)))
